@@ -77,6 +77,7 @@ fn to_f32(&self) -> Approximation<f32, Sign>
             let (man, r) = num.unsigned_abs().div_rem(&den);
             /*@ proof {
                 // 2^23 <= quotient < 2^25
+                assert(man.v() == gn / gd && r.v() == gn % gd);
                 let qd = man.v() * gd;
                 assert(gd * man.v() == qd) by (nonlinear_arith) requires qd == man.v() * gd;
                 assert(man.v() < 0x2000000) by (nonlinear_arith) requires qd == man.v() * gd, qd <= gn, gn < 0x2000000 * gd, gd > 0;
